@@ -499,6 +499,9 @@ func loadMetadata(bs []byte) (*meta, error) {
 
 	for _, so := range sos {
 		if _, exists := knownSections[so.Name]; !exists {
+			// Step over the unknown section so that the following sections are
+			// still found at their own offsets.
+			offset += so.Length
 			continue
 		}
 		if so.Name == "responses" {
